@@ -143,6 +143,13 @@ def rootsStep (st : RootsSt) : (ts : List Lexem) → Step RootsSt (List Root) ts
         match parseRootOptions (.raw s :: r) with
         | ⟨some o', r2, h2, hp⟩ => .more { st with o := o' } r2 (by have := hp rfl rfl; lenomega)
         | ⟨none, r2, h2, _⟩ => .done (.ok (st.roots ++ [⟨st.path, {}⟩])) ⟨r2, by lenomega⟩
+  | .op s :: r =>
+    -- D83 fix: `rx` / `regexp` (operator tokens) directly after the path start the options
+    if st.mode = .root && isRegexpRootWord s then
+      match parseRootOptions (.op s :: r) with
+      | ⟨some o', r2, h2, hp⟩ => .more { st with o := o' } r2 (by have := hp rfl rfl; lenomega)
+      | ⟨none, r2, h2, _⟩ => .done (.ok (st.roots ++ [⟨st.path, {}⟩])) ⟨r2, by lenomega⟩
+    else .done (.ok st.push) (Rest.refl _)
   | _ :: _ => .done (.ok st.push) (Rest.refl _)
 
 /-- `parse_roots`. `unsupported` for `~` expansion (depends on the user database). -/
